@@ -28,6 +28,138 @@ def seg(role, key="name"):
     return ("SORT", role, key)
 
 
+def late_binding(ctx: core.Ctx, py: ast.Module, F_: str):
+    """LATE-BIND: a lambda built once per element of a comprehension / loop and kept (it is the element, a dict value, appended, stored) must
+    not read the iteration variable as a free variable: all the kept lambdas then see its LAST value.  (`{n: lambda v: 1/f(v) for n, f in T}`
+    gives every name the last f.)  Binding it as a default argument (`lambda v, f=f: ...`) is the accepted idiom.
+    MOD-TABLE: the user-function table handed to lambdify by default defines sec / csc / cot as the reciprocals of cos / sin / tan."""
+    ctx.rule("LATE-BIND", "lambdas kept from a comprehension / loop do not capture the iteration variable by reference")
+    ctx.rule("MOD-TABLE", "the default lambdify function table defines each name as the function of that name")
+    n = 0
+
+    def free_reads(lam: ast.Lambda):
+        own = {a.arg for a in lam.args.posonlyargs + lam.args.args + lam.args.kwonlyargs}
+        if lam.args.vararg:
+            own.add(lam.args.vararg.arg)
+        if lam.args.kwarg:
+            own.add(lam.args.kwarg.arg)
+        return {x.id for x in ast.walk(lam.body) if isinstance(x, ast.Name) and isinstance(x.ctx, ast.Load) and x.id not in own}
+    for comp in ast.walk(py):
+        if isinstance(comp, (ast.ListComp, ast.SetComp, ast.DictComp, ast.GeneratorExp)):
+            targets = {x.id for g in comp.generators for x in ast.walk(g.target) if isinstance(x, ast.Name)}
+            parts = [comp.key, comp.value] if isinstance(comp, ast.DictComp) else [comp.elt]
+            for part in parts:
+                for lam in [x for x in ast.walk(part) if isinstance(x, ast.Lambda)]:
+                    n += 1
+                    cap = free_reads(lam) & targets
+                    ctx.oblige("LATE-BIND", f"{F_}:{getattr(comp, 'lineno', '?')}", f"lambda kept from a comprehension reads {sorted(free_reads(lam))}", not cap,
+                               file=F_, func="<module>", construct="late binding: " + ",".join(sorted(cap)),
+                               msg=f"`{ast.unparse(lam)[:70]}` is built once per element of a comprehension and reads the iteration variable(s) {sorted(cap)} "
+                                   f"when it is CALLED: every kept lambda sees their last value", line=lam.lineno)
+        elif isinstance(comp, ast.For):
+            targets = {x.id for x in ast.walk(comp.target) if isinstance(x, ast.Name)}
+            for st in ast.walk(comp):
+                kept = None
+                if isinstance(st, ast.Assign) and any(isinstance(t, (ast.Subscript, ast.Attribute)) for t in st.targets):
+                    kept = st.value
+                elif isinstance(st, ast.Call) and isinstance(st.func, ast.Attribute) and st.func.attr in ("append", "setdefault", "update", "add", "insert"):
+                    kept = st
+                if kept is None:
+                    continue
+                for lam in [x for x in ast.walk(kept) if isinstance(x, ast.Lambda)]:
+                    n += 1
+                    cap = free_reads(lam) & targets
+                    ctx.oblige("LATE-BIND", f"{F_}:{comp.lineno}", f"lambda kept from a loop reads {sorted(free_reads(lam))}", not cap, file=F_, func="<module>",
+                               construct="late binding (loop): " + ",".join(sorted(cap)),
+                               msg=f"`{ast.unparse(lam)[:70]}` is kept from a loop and reads the loop variable(s) {sorted(cap)} when it is called: every kept "
+                                   f"lambda sees their last value", line=lam.lineno)
+    # the default function table
+    want = {"sec": "1.0/np.cos(v)", "csc": "1.0/np.sin(v)", "cot": "1.0/np.tan(v)"}
+    tab = next((s_.value for s_ in py.body if isinstance(s_, ast.Assign) and any(isinstance(t, ast.Name) and t.id == "DEFAULT_MODULES" for t in s_.targets)), None)
+    if tab is None:
+        ctx.note("MOD-TABLE: no module-level DEFAULT_MODULES")
+        return
+    dicts = [d for d in ast.walk(tab) if isinstance(d, ast.Dict)]
+    for d in dicts:
+        for k, v in zip(d.keys, d.values):
+            if not (isinstance(k, ast.Constant) and isinstance(k.value, str) and isinstance(v, ast.Lambda) and len(v.args.args) == 1):
+                ctx.error(f"{F_}: DEFAULT_MODULES entry `{ast.unparse(k) if k else '**'}` is not `name: lambda v: <expr>` (cannot be judged)")
+                continue
+            p0 = v.args.args[0].arg
+
+            class RN(ast.NodeTransformer):
+                def visit_Name(self, n_):
+                    return ast.copy_location(ast.Name("v", n_.ctx), n_) if n_.id == p0 else n_
+            import copy as _copy
+            body = ast.unparse(RN().visit(_copy.deepcopy(v.body))).replace(" ", "")
+            if k.value not in want:
+                ctx.error(f"{F_}: DEFAULT_MODULES defines `{k.value}`, a function this check has no definition for (trusted base left)")
+                continue
+            ok = body in (want[k.value], want[k.value].replace("1.0/", "1/"), want[k.value].replace("1.0/", "1.0/(") + ")")
+            ctx.oblige("MOD-TABLE", f"{F_}:DEFAULT_MODULES", f"{k.value}(v) = {body}", ok, file=F_, func="<module>", construct=f"default function {k.value}",
+                       msg=f"the default lambdify table defines {k.value}(v) as `{body}`; required `{want[k.value]}`", line=v.lineno)
+    if not dicts:
+        # built by a comprehension / call: LATE-BIND above judges the lambdas; the entries themselves cannot be read off
+        ctx.note("MOD-TABLE: DEFAULT_MODULES holds no dict literal; its entries are judged by LATE-BIND only")
+
+
+def py_once(ctx: core.Ctx, py: ast.Module, F_: str):
+    """PY-ONCE: Model.model is ONE evaluation of the compiled state model at the caller's (dt, state, control).  The compiled block is executed
+    exactly once, outside any loop, with the method's own `dt` first and its own state / control starred in -- a model() that cuts dt into
+    sub-steps, iterates, or evaluates at a modified time step returns something other than the user's f(dt, x, u)."""
+    ctx.rule("PY-ONCE", "Model.model executes the compiled block exactly once, outside any loop, at the caller's own dt, state and control")
+    cls = core.find_class(py, "Model")
+    fn = core.find_func(cls, "model") if cls is not None else None
+    if fn is None:
+        ctx.error("anchor missing: python.Model.model")
+        return
+    from .. import normast
+    fn = normast.inline_only(fn, normast.class_resolver(py, cls, module_funcs="small"))
+    params = [a.arg for a in fn.args.args if a.arg != "self"]
+    if len(params) < 2:
+        ctx.error(f"python.Model.model parameters {params}: expected (dt, state[, control])")
+        return
+    par = {}
+    for p_ in ast.walk(fn):
+        for ch in ast.iter_child_nodes(p_):
+            par[ch] = p_
+    execs = [c for c in ast.walk(fn) if isinstance(c, ast.Call) and isinstance(c.func, ast.Attribute) and c.func.attr == "execute"]
+    rebound = {t.id for a in ast.walk(fn) if isinstance(a, (ast.Assign, ast.AugAssign, ast.For, ast.comprehension))
+               for t in ast.walk(a.targets[0] if isinstance(a, ast.Assign) else a.target) if isinstance(t, ast.Name)}
+    # `if control is None: control = <default>` is the default-argument idiom, not a replacement of what the caller gave
+    for i_ in ast.walk(fn):
+        if isinstance(i_, ast.If) and isinstance(i_.test, ast.Compare) and len(i_.test.ops) == 1 and isinstance(i_.test.ops[0], ast.Is) \
+                and isinstance(i_.test.left, ast.Name) and isinstance(i_.test.comparators[0], ast.Constant) and i_.test.comparators[0].value is None:
+            nm = i_.test.left.id
+            inside = [a for b_ in i_.body for a in ast.walk(b_) if isinstance(a, ast.Assign) and any(isinstance(t, ast.Name) and t.id == nm for t in a.targets)]
+            allb = [a for a in ast.walk(fn) if isinstance(a, ast.Assign) and any(isinstance(t, ast.Name) and t.id == nm for t in a.targets)]
+            if inside and len(inside) == len(allb):
+                rebound.discard(nm)
+    where = f"{F_}:Model.model"
+    ok = len(execs) == 1
+    why = f"{len(execs)} execute() call(s)"
+    if ok:
+        c = execs[0]
+        node, in_loop = c, False
+        while node in par:
+            node = par[node]
+            if isinstance(node, (ast.For, ast.While)):
+                in_loop = True
+            if isinstance(node, (ast.ListComp, ast.GeneratorExp, ast.DictComp, ast.SetComp)) and any(
+                    any(x is c for x in ast.walk(e_)) for e_ in ([node.elt] if not isinstance(node, ast.DictComp) else [node.key, node.value])):
+                in_loop = True          # evaluated once per element of the comprehension (being its outermost iterable is fine)
+        a0 = c.args[0] if c.args else None
+        dt_ok = isinstance(a0, ast.Name) and a0.id == params[0] and params[0] not in rebound
+        starred = [ast.unparse(a.value) for a in c.args[1:] if isinstance(a, ast.Starred)]
+        st_ok = params[1] in starred and params[1] not in rebound and (len(params) < 3 or (params[2] in starred and params[2] not in rebound))
+        ok = not in_loop and dt_ok and st_ok
+        why = ("inside a loop; " if in_loop else "") + ("" if dt_ok else f"time step argument `{ast.unparse(a0) if a0 is not None else None}` is not the caller's `{params[0]}`; ") + \
+              ("" if st_ok else f"state / control actuals {starred} are not the caller's own {params[1:]}")
+    ctx.oblige("PY-ONCE", where, f"execute({', '.join(ast.unparse(a) for a in execs[0].args) if execs else ''})", ok, file=F_, func="Model.model",
+               construct="single evaluation", msg=f"Model.model does not evaluate the compiled model once at its own arguments: {why}",
+               line=execs[0].lineno if execs else fn.lineno)
+
+
 def py_float_buffers(ctx: core.Ctx, py: ast.Module, F_: str):
     """PY-DTYPE: arrays that receive computed values are allocated as float arrays of a given shape -- never as `*_like` / copies of an input,
     whose dtype (an integer array handed to from_data) would silently truncate every stored result.  Shared with C19."""
@@ -128,5 +260,7 @@ def run(ctx: core.Ctx) -> int:
                    + " -- e.g. substituting a symbol that carries assumptions changes what Abs / sqrt / sign evaluate to",
                line=rewrites[0].lineno if rewrites else None)
     py_float_buffers(ctx, py, F)
+    py_once(ctx, py, F)
+    late_binding(ctx, py, F)
     return core.finish(ctx, explanation="E2 layout interpretation of python.Model + symbolic evaluation of python.BasicBlock "
                                         "against the temporaries protocol", **META)
